@@ -713,7 +713,8 @@ class Check(BaseCheck):
                 r.count('evaluations', nopt)
                 # the shape without widths: an ill-formed emission is a matter of program structure
                 r.violate({'kind': 'emitted C++ rejected by g++', 'family': prog.desc[0],
-                           'shape': prog.shape.split(':w')[0], 'unbox': b.opts[0][1], 'gxx': _norm_err(broken[b.bid])},
+                           **(prog.sig or {'shape': prog.shape.split(':w')[0]}),
+                           'unbox': b.opts[0][1], 'gxx': _norm_err(broken[b.bid])},
                           dict(case_base, options=list(b.opts[0]), vector=None),
                           f'{prog.shape} [{opt_label(b.opts[0])}]: g++ refuses the emitted code\n{broken[b.bid][-800:]}\n{b.text}')
                 continue
